@@ -1142,10 +1142,14 @@ RULE = ("generated single-repository histories of 1-45 commits: random DAGs with
         "master and/or main, foreign refs, heads at tips, at random commits, equal to or inside another branch's history, "
         "matching messages at random commits (text in the subject or only in the body), 10 search texts incl. the empty one, "
         "release names that differ only in the third / fourth number, commit times inside (and 6% outside, "
-        "model-only) the 30-day window; plus BranchName sort-item / cmp cases.  Non-trivial = a report with >= 2 builds "
+        "model-only) the 30-day window; sessions: ONE ReposCollection asked for 2-4 reports while the mock repository changes in "
+        "between (build tags appear on existing commits, commits are pushed, branches merged / reset / added / removed, "
+        "text changes, sync() on half of the steps), every report compared with the model's report of the state at that "
+        "moment; plus BranchName sort-item / cmp cases.  Non-trivial = a report with >= 2 builds "
         "on a history of >= 4 commits (or a cmp of two different names).")
 TRUSTED_BASE = [
-    "harness-side mock of git.Repo (commit/iter_refs/remotes, tree / 'VERSION'), same attribute surface as tests/mock_git.py",
+    "harness-side mock of git.Repo (commit/iter_refs/remotes, tree / 'VERSION'), same attribute surface as tests/mock_git.py; "
+    "in a session its content is replaced in place between two reports (fresh inner objects, as GitPython re-reading a repository)",
     "build tags reach the model already parsed: (major, minor, patch, build) computed by the harness from the structured "
     "tag it renders as build_<n>_release_<M>_<m>_success / build_<n>_master_success + VERSION file; the regexes of "
     "ProjectRepo and int()/str.split() of CPython are trusted (ASCII branch names only)",
@@ -1186,7 +1190,8 @@ LEVEL_TEXT = ("partial (model-level proof + correspondence).  THEOREMS, for ever
               "branches_sorted, master_last (strict total order on keys, numeric-aware, master last); only_matching, at_most_once "
               "(every history); report_ok_spec (the executable checker decides exactly the statement).  ONLY TESTED (correspondence "
               "model vs implementation + oracle on ~750 generated histories per quick run): that the hand model is the code; labels "
-              "of tagged builds, order of builds / commits inside a branch, the printed report, tag parsing.")
+              "of tagged builds, order of builds / commits inside a branch, the printed report, tag parsing; that a report made by a "
+              "long-lived collection depends only on the repository state at that moment (session cases: the model is a pure function).")
 LEVEL_NOTE = ("Trusted: Coq kernel + vm_compute; the hand model's fidelity (checked by correspondence on every run, not proved); the "
               "harness mock repository; the ast extractor of the constants.  All theorems are about the model; the statement "
               "(Spec.branch_ok) is tied to an executable checker by report_ok_spec and that checker is evaluated against the "
